@@ -181,6 +181,9 @@ pub fn vmap(name: &str, w: u32, sym: u32, sigma_hint: u32) -> u128 {
         "top" => pick([max - 4, max - 3, max - 2, max - 1, max]),
         "mid" => pick([1, (1u128 << (w / 2)) - 1, (1u128 << (w / 2)) + 1, (1u128 << (w - 2)) + 5, (1u128 << (w - 1)) + 3]),
         "hbig" => pick([0, 7, 300, 4096, 65535]).min(max),
+        // the type's maximum among the first symbols (so that even 3-symbol sequences contain it)
+        "maxy" => pick([max, 0, max - 1, 1, 1u128 << (w / 2)]),
+        "hmaxy" => pick([max.min(65535), 0, max.min(65535) - 1, 1, 255]),
         "hrev" => (sigma_hint.saturating_sub(1).saturating_sub(sym) as u128).min(max),
         "hgap" => ((sym as u128) * 3 + 1).min(max),
         // spread sigma symbols evenly over the value range of the type (keeps order)
